@@ -77,7 +77,7 @@ class O_StreamWrapper(IOBase):
             return self.readall()
 
         self.true_size = size
-        if self.end_of_file is not None and self.end_of_file > 0:
+        if self.end_of_file is not None:  # as in the tree after the empty-view fix
             self.true_size = min(self.end_of_file - self.position, size)
         if self.true_size < 0:
             self.true_size = 0
